@@ -23,6 +23,7 @@ func init() {
 
 func runC12(c *core.Ctx) {
 	const pkg = "pdf/font/charcode"
+	defer ruleMergeAgreement(c)
 	defer ruleDecodeConsumption(c)
 	defer ruleNoAmbiguousKeys(c)
 	defer ruleAppendCodeShifts(c)
@@ -480,6 +481,215 @@ func runC12(c *core.Ctx) {
 		o.Fact("agreement tests: Low %d, High %d", count["Low"], count["High"])
 		o.Require(count["Low"] >= 1 && count["High"] >= 1, "canMerge does not compare the bounds of its arguments")
 		o.Require(count["Low"] == count["High"], "canMerge tests the lower bounds for agreement %d time(s) but the upper bounds %d time(s)", count["Low"], count["High"])
+	})
+}
+
+// ruleMergeAgreement (C12-R6, second half): in the code that decides whether
+// two code space ranges can be merged, a byte position counts as "the two
+// ranges agree here" only if both the lower and the upper bounds agree.  For
+// every loop over the byte positions, the iterations that complete without
+// passing the adjacency test (a comparison that mixes High and Low) must do
+// so under a path condition that implies both equalities.  The code is looked
+// for in canMerge, when that function exists, and in the normalised
+// CodeSpaceRange (which contains an unexported predicate under any name).
+func ruleMergeAgreement(c *core.Ctx) {
+	const pkg = "pdf/font/charcode"
+	c.Check("C12-R6", pkg+".merge/agreement", "an iteration over a byte position of two ranges completes without the adjacency test only when both bounds agree there", func(o *core.Ob) {
+		var fns []*core.Func
+		if f := c.Prog.FuncOpt(pkg, "canMerge"); f != nil {
+			fns = append(fns, f)
+		}
+		if f := c.Prog.FuncOpt(pkg, "(*Codec).CodeSpaceRange"); f != nil {
+			fns = append(fns, f)
+		}
+		loops := 0
+		for _, fn := range fns {
+			g := fn.Graph()
+			info := fn.Info()
+			fieldIdx := func(e ast.Expr) (string, types.Object, types.Object) {
+				ix, ok := ast.Unparen(e).(*ast.IndexExpr)
+				if !ok {
+					return "", nil, nil
+				}
+				sel, ok := ast.Unparen(ix.X).(*ast.SelectorExpr)
+				if !ok || (sel.Sel.Name != "Low" && sel.Sel.Name != "High") {
+					return "", nil, nil
+				}
+				return sel.Sel.Name, core.ObjOf(info, sel.X), core.ObjOf(info, ix.Index)
+			}
+			type comp struct {
+				be   *ast.BinaryExpr
+				kind string
+			}
+			byIdx := map[types.Object][]comp{}
+			mixed := map[*ast.BinaryExpr]bool{}
+			var stack []ast.Node
+			loopOf := map[*ast.BinaryExpr][]ast.Node{}
+			ast.Inspect(fn.Decl.Body, func(n ast.Node) bool {
+				if n == nil {
+					stack = stack[:len(stack)-1]
+					return true
+				}
+				stack = append(stack, n)
+				be, ok := n.(*ast.BinaryExpr)
+				if !ok {
+					return true
+				}
+				hasLow, hasHigh := false, false
+				ast.Inspect(be, func(m ast.Node) bool {
+					if sel, ok := m.(*ast.SelectorExpr); ok {
+						hasLow = hasLow || sel.Sel.Name == "Low"
+						hasHigh = hasHigh || sel.Sel.Name == "High"
+					}
+					return true
+				})
+				switch be.Op {
+				case token.EQL, token.NEQ, token.LSS, token.GTR, token.LEQ, token.GEQ:
+					if hasLow && hasHigh {
+						lb, isBin := ast.Unparen(be.X).(*ast.BinaryExpr)
+						if !isBin || (lb.Op != token.LAND && lb.Op != token.LOR) {
+							mixed[be] = true
+						}
+					}
+				}
+				if be.Op != token.EQL && be.Op != token.NEQ {
+					return true
+				}
+				k1, b1, i1 := fieldIdx(be.X)
+				k2, b2, i2 := fieldIdx(be.Y)
+				if k1 == "" || k1 != k2 || b1 == nil || b2 == nil || b1 == b2 || i1 == nil || i1 != i2 {
+					return true
+				}
+				byIdx[i1] = append(byIdx[i1], comp{be, k1})
+				var ls []ast.Node
+				for _, a := range stack {
+					switch a.(type) {
+					case *ast.ForStmt, *ast.RangeStmt:
+						ls = append(ls, a)
+					}
+				}
+				loopOf[be] = ls
+				return true
+			})
+			var adj []*core.V
+			for _, v := range g.Vs {
+				if v.AST == nil && (v.Cond == nil || v.Cond.Expr == nil) {
+					continue
+				}
+				has := false
+				look := func(n ast.Node) {
+					if n == nil {
+						return
+					}
+					ast.Inspect(n, func(m ast.Node) bool {
+						if be, ok := m.(*ast.BinaryExpr); ok && mixed[be] {
+							has = true
+						}
+						return true
+					})
+				}
+				if v.AST != nil {
+					if _, isLoop := v.AST.(*ast.ForStmt); !isLoop {
+						if _, isRange := v.AST.(*ast.RangeStmt); !isRange {
+							look(v.AST)
+						}
+					}
+				}
+				if v.Cond != nil && v.Cond.Expr != nil {
+					look(v.Cond.Expr)
+				}
+				if has {
+					adj = append(adj, v)
+				}
+			}
+			for idx, comps := range byIdx {
+				// the innermost loop that advances the index
+				var loop ast.Node
+				for _, cand := range loopOf[comps[0].be] {
+					advances := false
+					if rs, ok := cand.(*ast.RangeStmt); ok && rs.Key != nil && core.ObjOf(info, rs.Key) == idx {
+						advances = true
+					}
+					ast.Inspect(cand, func(m ast.Node) bool {
+						switch x := m.(type) {
+						case *ast.IncDecStmt:
+							if core.ObjOf(info, x.X) == idx {
+								advances = true
+							}
+						case *ast.AssignStmt:
+							if x.Tok != token.DEFINE {
+								for _, l := range x.Lhs {
+									if core.ObjOf(info, l) == idx {
+										advances = true
+									}
+								}
+							}
+						}
+						return true
+					})
+					if advances {
+						loop = cand
+					}
+				}
+				if loop == nil {
+					continue
+				}
+				var head *core.V
+				for _, h := range loopHeads(g) {
+					if h.Cond.Range != nil && ast.Node(h.Cond.Range) == loop {
+						head = h
+					}
+					if fs, ok := loop.(*ast.ForStmt); ok && fs.Cond != nil && h.Cond.Expr == fs.Cond {
+						head = h
+					}
+				}
+				if head == nil {
+					o.Unrec("%s: the loop over the byte positions at %s has no recognisable head", fn.Key, c.Prog.Pos(loop.Pos()))
+					continue
+				}
+				loops++
+				o.At(fn.Site(loop, "loop over byte positions"))
+				// paths that stay inside the loop (an iteration that completes), without the adjacency test
+				avoid := append([]*core.V{}, adj...)
+				inLoop := naturalLoop(g, head)
+				for _, v := range g.Vs {
+					if !inLoop[v] {
+						avoid = append(avoid, v)
+					}
+				}
+				atoms := atomsBetween(g, head, head, avoid)
+				o.Fact("%s: loop at %s: %d vertices, completed iterations without the adjacency test hold under %s", fn.Key, c.Prog.Pos(loop.Pos()), len(inLoop), c.Prog.FormulaString(core.Formula{Fn: fn, Atoms: atoms}))
+				if atoms == nil && !g.ReachFrom(head, false, core.AvoidVs(avoid...))[head] {
+					continue // every completed iteration passes the adjacency test
+				}
+				for _, kind := range []string{"Low", "High"} {
+					var want *core.Atom
+					for _, cp := range comps {
+						if cp.kind == kind {
+							if cp.be.Op == token.NEQ {
+								// the atom "be is false"
+								want = &core.Atom{Expr: cp.be, Neg: true}
+							} else {
+								want = &core.Atom{Expr: cp.be}
+							}
+						}
+					}
+					if want == nil {
+						o.FailAt(fn.Site(loop, ""), "the loop compares only one of the two bounds of a byte position")
+						continue
+					}
+					holds, counter, decided := c.Prog.Implies(core.Formula{Fn: fn, Atoms: atoms}, core.Formula{Fn: fn, Atoms: []core.Atom{*want}})
+					if !decided {
+						o.Unrec("%s: the path condition of a completed iteration was not decided", fn.Key)
+						continue
+					}
+					if !holds {
+						o.FailAt(fn.Site(loop, ""), "an iteration can complete without the adjacency test although the %s bounds differ (%s): ranges that differ in one bound only are reported as mergeable", kind, counter)
+					}
+				}
+			}
+		}
+		o.Shape(loops > 0, "no loop comparing the bounds of two ranges position by position was found")
 	})
 }
 
